@@ -178,6 +178,10 @@ int std_configs(wcfg_t *out, int max, int thorough)
     n = add_cfg(out, n, max, V_TLS13, 0, KX_13_RSA, 0, 0, 0, 0);
     n = add_cfg(out, n, max, V_TLS13, 0, KX_13_PSK, 0, 0, 0, 0);
     n = add_cfg(out, n, max, V_TLS13, 0, KX_13_PSK, 0, 0, 1, 0);
+    /* honest 0-RTT data under a ticket of an earlier connection (the variant whose server session disabled early data does not
+       complete honestly and is added by drv_c01 itself) */
+    n = add_cfg(out, n, max, V_TLS13, 0, KX_13_RSA, 0, 0, 1, 1);
+    out[n - 1].early_send = 1; out[n - 1].resume13 = 1;
     n = add_cfg(out, n, max, V_TLS13, 0, KX_13_ECDSA, 0, 1, 0, 0);
     n = add_cfg(out, n, max, V_TLS12, V_MULTI, KX_PSK, 0, 0, 0, 0);
     n = add_cfg(out, n, max, V_TLS12, V_MULTI, KX_RSA, 0, 0, 0, 0);
